@@ -190,7 +190,7 @@ def verify_unit(vc_path, tier='quick', with_vacuity=True, rlimit=None, keep=True
         with open(vout, 'w') as f:
             f.write(vtext)
         _pool = _cf.ThreadPoolExecutor(max_workers=1)
-        vfut = _pool.submit(run_verus, vout, ['--rlimit', '5'])
+        vfut = _pool.submit(run_verus, vout, ['--rlimit', '5', '--verify-root', '--verify-function', '*__vac'])
     res, diags, wall, cmd = run_verus(out, extra)
     r.wall_s = wall
     r.cmd = cmd
